@@ -84,6 +84,17 @@ def check(cfg, lines):
         elif kind == "negative_delay":
             if not crash and touched:
                 v("C20", "negative delay on node %s was silently simulated" % fn)
+        elif kind == "isolated_node":
+            if not crash:
+                v("C20", "a %s connected to nothing (node %s) was accepted: the run was simulated without it" % (ncfg[fn]["kind"], fn))
+        elif kind == "bad_in_index":
+            if not crash or [e for e in ev if e[0] == "T" and ecfg[e[2]]["dst"] == fn]:
+                v("C20", "out-of-range constant in-edge index on machine %s was simulated: crash=%s" % (fn, crash))
+        elif kind == "edge_negative_delay":
+            fe = cfg["fault_edge"]
+            puts = len([e for e in ev if e[0] == "P" and e[2] == fe])
+            if puts > cfg.get("fault_after", 0) and not crash:
+                v("C20", "negative delay on buffer %s was silently simulated (%d items put on it)" % (fe, puts))
     if crash:
         return V
     # ---------------- replay item places (C03) and collect per-item times
